@@ -40,27 +40,35 @@ package lexer
 //@ func (*Lexer).skipTabsAndSpaces
 //@ props C20 C03
 //@ safety
-//@ requires Inv(l)
+//@ requires Inv(l) && l.position >= 0
 //@ modifies l.position, l.nextPosition, l.ch, l.line, l.lineStart, l.column
-//@ invariant 1: Inv(l) && lexframe(l) && l.position >= old(l.position) && l.tokenStartPosition == old(l.tokenStartPosition) && l.prevToken == old(l.prevToken)
+//@ invariant 1: Inv(l) && lexframe(l) && l.position >= old(l.position) && l.tokenStartPosition == old(l.tokenStartPosition) && l.prevToken == old(l.prevToken) && forall(j, old(l.position), l.position, j < clen(l) && (l.characters[j] == ' ' || l.characters[j] == '\t'))
 //@ ensures[C20.lex.inv] Inv(l) && lexframe(l) && l.position >= old(l.position)
 //@ ensures[C20.lex.skip] !(l.ch == ' ' || l.ch == '\t')
+//@ ensures[C20.lex.skip.only] forall(j, old(l.position), l.position, j < clen(l) && (l.characters[j] == ' ' || l.characters[j] == '\t'))
 
 //@ func (*Lexer).skipComment
 //@ props C20 C03
 //@ safety
-//@ requires Inv(l)
+//@ requires Inv(l) && l.position >= 0
 //@ modifies l.position, l.nextPosition, l.ch, l.line, l.lineStart, l.column
 //@ invariant 1: Inv(l) && lexframe(l) && l.position >= old(l.position)
 //@ ensures[C20.lex.inv] Inv(l) && lexframe(l) && l.position >= old(l.position)
 
+//@ spec isterm(l, i) = i + 1 < clen(l) && l.characters[i] == '*' && l.characters[i+1] == '/'
+//@ spec noterm(l, a, b) = forall(i, a, b, !isterm(l, i))
+
+// A block comment ends at the first "*/" after its opening "/*": nothing that follows the first terminator is
+// swallowed (only trailing blanks are skipped). The opening's own '*' may or may not count (i starts at s+2).
 //@ func (*Lexer).skipMultiLineComment
 //@ props C20 C03
 //@ safety
-//@ requires Inv(l)
+//@ requires Inv(l) && l.position >= 0
 //@ modifies l.position, l.nextPosition, l.ch, l.line, l.lineStart, l.column
-//@ invariant 1: Inv(l) && lexframe(l) && l.position >= old(l.position)
+//@ let s = old(l.position)
+//@ invariant 1: Inv(l) && lexframe(l) && l.position >= s && (!found ==> noterm(l, s + 2, l.position)) && (found ==> noterm(l, s + 2, l.position - 2) && (l.position - 1 >= s + 2 && l.position - 1 < clen(l) ==> l.characters[l.position - 1] != '*'))
 //@ ensures[C20.lex.inv] Inv(l) && lexframe(l) && l.position >= old(l.position)
+//@ ensures[C20.cmt.first] forall(i, s + 2, l.position - 1, isterm(l, i) ==> forall(j, i + 2, l.position, l.characters[j] == ' ' || l.characters[j] == '\t'))
 
 //@ func (*Lexer).GetLineText
 //@ props C20 C03
